@@ -79,6 +79,9 @@ class FileSystem(SimComponent):
         self._create_manager = RequestManager()
 
         def _create_file_action(request: List[Any], context: Any) -> RequestResponse:
+            if not request[2] and self.get_file(folder_name=request[0], file_name=request[1]) is not None:
+                # the file exists and may not be replaced: refuse the request instead of letting create_file raise
+                return RequestResponse.from_bool(False)
             file = self.create_file(folder_name=request[0], file_name=request[1], force=request[2])
             if not file:
                 return RequestResponse.from_bool(False)
@@ -369,7 +372,7 @@ class FileSystem(SimComponent):
             # Use root folder if folder_name not supplied
             folder = self.get_folder("root")
 
-        file = self.get_file(folder, file_name)
+        file = folder.get_file(file_name)
         if file:
             self.sys_log.info(f"Cannot create file {file_name} as it already exists.")
             if force:
